@@ -71,4 +71,180 @@ theorem getRealRootfs_slot (s : State) (ino : Nat) (h : fsIdx ino ≠ 0) :
   simp only [h, if_false]
   cases s.supers (fsIdx ino) <;> rfl
 
+/-- the slot a resolved backend target lives in is occupied by that backend -/
+theorem target_slot {s : State} {ino : Nat} {b : Bk} {idx i : Nat}
+    (h : s.getRealRootfs ino = some (.ok (.backend b idx i))) : s.supers idx = some b := by
+  unfold State.getRealRootfs at h
+  repeat' split at h
+  all_goals first
+    | (cases h; done)
+    | (simp only [Option.some.injEq, Except.ok.injEq, Target.backend.injEq] at h
+       obtain ⟨h1, h2, _⟩ := h
+       subst h1 h2
+       assumption)
+
+/-- `id_remap_with_nodeid` picks the slot that serves the node: the context of a request is
+    translated with the mapping of the mount `get_real_rootfs` resolves its node id to -/
+theorem remapIdx_of_target {s : State} {ino : Nat} {b : Bk} {idx i : Nat}
+    (h : s.getRealRootfs ino = some (.ok (.backend b idx i))) : s.remapIdx ino = idx := by
+  unfold State.getRealRootfs at h
+  unfold State.remapIdx
+  by_cases h0 : fsIdx ino = 0
+  · simp only [h0, if_true] at h
+    by_cases h1 : lowIno ino = ROOT_ID
+    · simp only [h1, if_true] at h
+      cases hm : s.mnts ROOT_ID with
+      | none => simp [hm] at h
+      | some m =>
+        simp only [hm] at h
+        cases hs : s.supers m.idx with
+        | none => simp [hs] at h
+        | some b' =>
+          simp only [hs] at h
+          split at h
+          · cases h
+          · simp only [Option.some.injEq, Except.ok.injEq, Target.backend.injEq] at h
+            simp [h0, h1, h.2.1]
+    · simp [h1] at h
+  · simp only [h0, if_false] at h
+    cases hs : s.supers (fsIdx ino) with
+    | none => simp [hs] at h
+    | some b' =>
+      simp only [hs, Option.some.injEq, Except.ok.injEq, Target.backend.injEq] at h
+      have hc : ¬ (fsIdx ino = 0 ∧ lowIno ino = ROOT_ID) := fun hh => h0 hh.1
+      rw [if_neg hc]
+      exact h.2.1
+
+/-- pseudo targets carry index 0 -/
+theorem pseudo_target_idx {s : State} {ino j : Nat}
+    (h : s.getRealRootfs ino = some (.ok (.pseudo j))) : fsIdx j = 0 := by
+  unfold State.getRealRootfs at h
+  repeat' split at h
+  all_goals first
+    | (cases h; done)
+    | (simp only [Option.some.injEq, Except.ok.injEq, Target.pseudo.injEq] at h
+       subst h
+       assumption)
+
+/-- the full shape of a delivered request: target, context ids, setattr owner ids -/
+theorem handle'_delivered (s : State) (hz : s.supers 0 = none) (r : Req) (res : Res) (c : Call)
+    (h : s.handle' r = some (res, [c])) :
+    ∃ b idx i, s.getRealRootfs r.ino = some (.ok (.backend b idx i)) ∧ c.bk = b.id ∧
+      c.method = .req r.op ∧
+      remapPair (s.effectiveMap idx) false r.uid r.gid = some (c.uid, c.gid) ∧
+      res = (s.backendReply r idx i).getD .panic ∧
+      (r.op = .setattr → ∃ au ag, remapPair (s.effectiveMap idx) false r.setUid r.setGid = some (au, ag) ∧
+          c.args = [.n i, .n au, .n ag]) := by
+  unfold State.handle' at h
+  cases hr : remapPair (s.effectiveMap (s.remapIdx r.nodeid)) false r.uid r.gid with
+  | none => simp [hr] at h
+  | some cc =>
+    obtain ⟨cu, cg⟩ := cc
+    simp only [hr] at h
+    split at h
+    · cases h
+    · split at h
+      · cases h
+      · cases hg : s.getRealRootfs r.ino with
+        | none => simp [hg] at h
+        | some et =>
+          cases et with
+          | error e => simp [hg] at h
+          | ok t =>
+            simp only [hg] at h
+            cases hsec : s.second r t with
+            | none => simp [hsec] at h
+            | some es =>
+              cases es with
+              | error e => simp [hsec] at h
+              | ok t2 =>
+                simp only [hsec] at h
+                cases t with
+                | pseudo idata =>
+                  simp only at h
+                  cases hp : s.pseudoReq r idata with
+                  | none => simp [hp] at h
+                  | some x => simp [hp] at h
+                | backend b idx i =>
+                  simp only at h
+                  have hslot := target_slot hg
+                  have hidx0 : idx ≠ 0 := by intro h0; rw [h0, hz] at hslot; cases hslot
+                  -- the node id of the header resolves to the same slot
+                  have hnode : s.remapIdx r.nodeid = idx := by
+                    unfold Req.nodeid
+                    by_cases hl : r.op = .link
+                    · simp only [hl, if_true]
+                      unfold State.second at hsec
+                      simp only [hl, or_true, if_true] at hsec
+                      cases hg2 : s.getRealRootfs r.ino2 with
+                      | none => simp [hg2] at hsec
+                      | some et2 =>
+                        cases et2 with
+                        | error e => simp [hg2] at hsec
+                        | ok t2' =>
+                          simp only [hg2] at hsec
+                          split at hsec
+                          · cases hsec
+                          · rename_i hne
+                            have hidxeq : idx = t2'.idx := by
+                              simp only [Target.idx, ne_eq, Decidable.not_not] at hne
+                              exact hne
+                            cases t2' with
+                            | pseudo j =>
+                              have := pseudo_target_idx hg2
+                              simp only [Target.idx] at hidxeq
+                              omega
+                            | backend b2 idx2 i2 =>
+                              simp only [Target.idx] at hidxeq
+                              rw [remapIdx_of_target hg2, hidxeq]
+                    · simp only [hl, if_false]
+                      exact remapIdx_of_target hg
+                  rw [hnode] at hr
+                  split at h
+                  · cases h
+                  · rename_i au ag hattr
+                    simp only [Option.some.injEq, Prod.mk.injEq, List.cons.injEq, and_true] at h
+                    obtain ⟨h1, h2⟩ := h
+                    subst h2
+                    refine ⟨b, idx, i, rfl, rfl, rfl, hr, h1.symm, ?_⟩
+                    intro hop
+                    simp only [hop, if_true] at hattr
+                    refine ⟨au, ag, hattr, ?_⟩
+                    simp only [callArgs, hop]
+
+/-- everything a directory listing delivers is the image of an entry that was offered -/
+theorem dirFold_mem {α β : Type} (f : α → Option (Except Nat β)) (stop : Nat) :
+    ∀ (l : List α) (acc : List β) (e : Option Nat) (out : List β),
+      dirFold f stop l acc = some (e, out) → ∀ y ∈ out, y ∈ acc ∨ ∃ x ∈ l, f x = some (.ok y) := by
+  intro l
+  induction l with
+  | nil =>
+    intro acc e out h y hy
+    simp only [dirFold, Option.some.injEq, Prod.mk.injEq] at h
+    rw [← h.2] at hy
+    exact Or.inl (by simpa using hy)
+  | cons x rest ih =>
+    intro acc e out h y hy
+    unfold dirFold at h
+    cases hf : f x with
+    | none => simp [hf] at h
+    | some r =>
+      cases r with
+      | error n =>
+        simp only [hf, Option.some.injEq, Prod.mk.injEq] at h
+        rw [← h.2] at hy
+        exact Or.inl (by simpa using hy)
+      | ok v =>
+        simp only [hf] at h
+        split at h
+        · simp only [Option.some.injEq, Prod.mk.injEq] at h
+          rw [← h.2] at hy
+          exact Or.inl (by simpa using hy)
+        · rcases ih (v :: acc) e out h y hy with h1 | ⟨x', hx', hfx'⟩
+          · rcases List.mem_cons.mp h1 with h2 | h2
+            · subst h2
+              exact Or.inr ⟨x, by simp, hf⟩
+            · exact Or.inl h2
+          · exact Or.inr ⟨x', by simp [hx'], hfx'⟩
+
 end Fbr.Lemmas.VfsRoute
